@@ -139,6 +139,8 @@ fn parse_strace(text: &str, port: u16) -> (Vec<Conn>, Vec<Sleep>) {
 }
 
 pub struct Case {
+    /// seconds an accepted connection is kept open (idle) before the phase's fault happens
+    pub holds: Vec<f64>,
     pub phases: Vec<Phase>,
     pub healthy: Vec<Vec<u8>>,
     pub opts: Vec<String>,
@@ -430,6 +432,11 @@ pub fn run_case(cli: &str, port: u16, c: &Case, log: &mut Vec<String>) -> Outcom
                 seen_attempts = run.strace(port).0.len();
                 log.push(format!("phase {} {}: accepted connection #{} after {:.3} s", idx, other.map(|p| p.letter()).unwrap_or('H'), accepted, up.elapsed().as_secs_f64()));
                 let before = run.stdout().len();
+                let hold = c.holds.get(idx).copied().unwrap_or(0.0);
+                let hold_at_start = matches!(other, Some(Phase::AcceptClose) | Some(Phase::Junk(_)));
+                if hold > 0.0 && hold_at_start {
+                    std::thread::sleep(Duration::from_secs_f64(hold));
+                }
                 match other {
                     Some(Phase::AcceptClose) => {}
                     Some(Phase::FramesClose(ls)) => {
@@ -440,6 +447,10 @@ pub fn run_case(cli: &str, port: u16, c: &Case, log: &mut Vec<String>) -> Outcom
                         }
                         let _ = s.write_all(&b);
                         let _ = s.flush();
+                        if hold > 0.0 {
+                            // a connection that lives for a while after delivering its frames
+                            std::thread::sleep(Duration::from_secs_f64(hold));
+                        }
                     }
                     Some(Phase::PartialReset(ls, part)) => {
                         let mut b = Vec::new();
@@ -451,6 +462,9 @@ pub fn run_case(cli: &str, port: u16, c: &Case, log: &mut Vec<String>) -> Outcom
                         let _ = s.flush();
                         // let the complete lines be consumed before the reset may discard them
                         wait_stdout_stable(&run, before, !ls.is_empty(), Duration::from_millis(300), Duration::from_secs(10));
+                        if hold > 0.0 {
+                            std::thread::sleep(Duration::from_secs_f64(hold));
+                        }
                         let _ = s.write_all(part);
                         let _ = s.flush();
                         std::thread::sleep(Duration::from_millis(30));
@@ -612,7 +626,16 @@ pub fn build_case(r: &mut Rng, letters: &str) -> Case {
         ls.extend(body);
         ls
     };
+    let mut holds: Vec<f64> = Vec::new();
     for ch in letters.chars() {
+        if let Some(d) = ch.to_digit(10) {
+            // a digit after a phase letter: the connection of that phase is held open that many seconds (+0.5)
+            if let Some(h) = holds.last_mut() {
+                *h = d as f64 + 0.5;
+            }
+            continue;
+        }
+        holds.push(0.0);
         match ch {
             'R' => phases.push(Phase::Refuse),
             'C' => phases.push(Phase::AcceptClose),
@@ -644,7 +667,7 @@ pub fn build_case(r: &mut Rng, letters: &str) -> Case {
     if r.chance(1, 3) {
         opts.push("-R".to_string());
     }
-    Case { phases, healthy, opts }
+    Case { holds, phases, healthy, opts }
 }
 
 fn esc(b: &[u8]) -> String {
@@ -652,7 +675,7 @@ fn esc(b: &[u8]) -> String {
 }
 
 pub fn case_script(port: u16, letters: &str, c: &Case) -> Vec<String> {
-    let mut v = vec![format!("c18 port {}", port), format!("c18 letters {}", letters), format!("c18 opts {}", c.opts.join(" "))];
+    let mut v = vec![format!("c18 port {}", port), format!("c18 letters {}", letters), format!("c18 opts {}", c.opts.join(" ")), format!("c18 holds {}", c.holds.iter().map(|h| h.to_string()).collect::<Vec<_>>().join(" "))];
     for p in &c.phases {
         match p {
             Phase::Refuse => v.push("c18 phase R".into()),
@@ -679,11 +702,13 @@ pub fn replay(script: &str) -> (bool, String) {
         Err(_) => return (true, "SQMON_CLI not set\n".into()),
     };
     let mut port = 21999u16;
-    let mut case = Case { phases: vec![], healthy: vec![], opts: vec![] };
+    let mut case = Case { holds: vec![], phases: vec![], healthy: vec![], opts: vec![] };
     for l in script.lines() {
         let Some(rest) = l.strip_prefix("c18 ") else { continue };
         if let Some(p) = rest.strip_prefix("port ") {
             port = p.trim().parse().unwrap_or(port);
+        } else if let Some(h) = rest.strip_prefix("holds") {
+            case.holds = h.split_whitespace().filter_map(|x| x.parse().ok()).collect();
         } else if let Some(o) = rest.strip_prefix("opts") {
             case.opts = o.split_whitespace().map(|s| s.to_string()).collect();
         } else if let Some(p) = rest.strip_prefix("phase ") {
@@ -751,7 +776,9 @@ pub fn run(ctx: &Ctx) -> Vec<Report> {
     let mut scripts: Vec<String> = Vec::new();
     if ctx.quick() {
         scripts.extend(all_scripts(1));
-        for s in ["RR", "RF", "FR", "PR", "RP", "JR", "CR", "PF", "PP", "FPF", "PJF", "RFR", "FCP", "PCF", "JPJ", "CPR"] {
+        // letters followed by a digit: that connection stays open for digit+0.5 s before it is closed / reset
+        // (connections normally live for a while before an interruption; retry pacing must not depend on it)
+        for s in ["RR", "RF", "FR", "PR", "RP", "JR", "CR", "PF", "PP", "FPF", "PJF", "RFR", "FCP", "PCF", "JPJ", "CPR", "F6R", "F2RR", "P5R", "C6RF", "RF6R", "J3RP"] {
             scripts.push(s.to_string());
         }
         // keep every shard busy with at most ~2 refusals: sort so that R-heavy scripts are spread
@@ -767,11 +794,19 @@ pub fn run(ctx: &Ctx) -> Vec<Report> {
             let n = 4 + rr.below(2) as usize;
             scripts.push((0..n).map(|_| *rr.pick(&['R', 'C', 'F', 'P', 'J', 'P', 'F', 'C', 'J'])).collect());
         }
+        for a in ["F", "P", "C", "J"] {
+            for h in [1, 3, 5, 7] {
+                for tail in ["R", "RR", "RF", "PR"] {
+                    scripts.push(format!("{}{}{}", a, h, tail));
+                    scripts.push(format!("R{}{}{}", a, h, tail));
+                }
+            }
+        }
         rep.exhaustive.push("all 156 fault scripts over {refuse, accept+close, accept+frames+close, accept+partial line+RST, accept+junk} of length <= 3 (one random payload instance each)".into());
     }
     // deal: order by number of refusals descending so the slow ones are spread evenly
     let mut order: Vec<usize> = (0..scripts.len()).collect();
-    order.sort_by_key(|&i| std::cmp::Reverse(scripts[i].matches('R').count()));
+    order.sort_by_key(|&i| std::cmp::Reverse(scripts[i].matches('R').count() * 5 + scripts[i].chars().filter_map(|c| c.to_digit(10)).sum::<u32>() as usize));
     for (k, &i) in order.iter().enumerate() {
         if !ctx.mine(k as u64) {
             continue;
